@@ -337,7 +337,9 @@ var c17Strings = []string{"", "a", "ab", "abc", "abab", "aaa", "aaaa", "abcabc",
 	// format characters that are not white space (trim strips white space only) at the edges, alone and behind white space
 	"\uFEFFid,name", "total\u200B", " \t\u200B \n", "\u2060x\u2060", "\u00ADa\u00AD", "\u200Bx", " \uFEFF", "\u180Ea", "a\u200D", "\u200E b \u200F", "\x00a\x00", "\x1fa\x7f", "\u0085"}
 
-var c17Patterns = []string{"a", "^a", "a$", "^a+$", "a*", "[ab]+", "a|b", "(ab)+", ".", "^$", "\\d+", "\\s", "[^a]", "a{2}", "a{2,}", "(", "[a", "*", "a{2,1}", "\\", "(?i)abc", "中", "^.b", "b?c", "(a)(b)?", "x*", "\\bworld\\b", "[a-c]{3}", "(?P<n>a)", "\\p{Han}+", "a**", "(?<x>a)"}
+var c17Patterns = []string{"a", "^a", "a$", "^a+$", "a*", "[ab]+", "a|b", "(ab)+", ".", "^$", "\\d+", "\\s", "[^a]", "a{2}", "a{2,}", "(", "[a", "*", "a{2,1}", "\\", "(?i)abc", "中", "^.b", "b?c", "(a)(b)?", "x*", "\\bworld\\b", "[a-c]{3}", "(?P<n>a)", "\\p{Han}+", "a**", "(?<x>a)",
+	// an unmatched closing parenthesis as the only syntax, brackets that are literals, slash-delimited lookalikes
+	")", "a)", "total)", "())", "]", "}", "a]", "/a/", "/usr/", "/a/i", "/^a/m", "//", "/", "a/i"}
 
 // StrKindCase: the same text supplied by the caller as a defined type and as its underlying type.
 type StrKindCase struct {
